@@ -1,7 +1,5 @@
 """C01 - every server message is delivered once, in order, byte-exact."""
-import collections
-
-from .. import netsim, oracle, peer, scen as S
+from .. import netsim, oracle, peer, scen as S, streams as ST
 from ..runner import Result
 
 ID = 'C01'
@@ -27,50 +25,9 @@ def plan(tier):
             ('big', 120 if tier == 'quick' else 4000)]
 
 
-def _ctl(rng):
-    kind = rng.choice(['ping', 'ping', 'pong'])
-    n = rng.choice([0, 1, 2, 125, rng.randrange(0, 126)])
-    return {'kind': kind, 'hex': S.rand_bytes(rng, n).hex()}
-
-
 def make_case(family, i, rng, tier):
-    items = []
-    nmsg = rng.randrange(1, 9 if family == 'seeded' else 3)
-    for _ in range(nmsg):
-        r = rng.random()
-        if r < 0.3:
-            items.append(_ctl(rng))
-            continue
-        kind = 'text' if rng.random() < 0.5 else 'binary'
-        if family == 'big':
-            size = rng.choice([65535, 65536, 65537, 70000,
-                               rng.randrange(65538, 300000)])
-        else:
-            size = rng.choice([0, 1, 2, 125, 126, 127, 200, 1000,
-                               rng.randrange(0, 300), rng.randrange(0, 5000)])
-        it = {'kind': kind}
-        if kind == 'text':
-            it['text'] = S.rand_text(rng, size if size < 3000 else size // 3)
-            plen = len(it['text'].encode('utf-8'))
-        else:
-            it['hex'] = S.rand_bytes(rng, size).hex()
-            plen = size
-        # fragmentation: cut offsets into the payload; duplicates / 0 / plen
-        # produce empty fragments
-        nfr = rng.choice([1, 1, 1, 2, 2, 3, 4, 6])
-        cuts = []
-        for _ in range(nfr - 1):
-            c = rng.choice([0, plen, rng.randrange(0, plen + 1)])
-            cuts.append(c)
-        it['cuts'] = sorted(cuts)
-        it['lenforms'] = [rng.choice([None, None, None, 16, 64])
-                          for _ in range(nfr)]
-        inner = []
-        for _ in range(nfr - 1):
-            k = rng.choice([0, 0, 1, 1, 2])
-            inner.append([_ctl(rng) for _ in range(k)])
-        it['inner'] = inner
-        items.append(it)
+    big = family == 'big'
+    items = ST.make_items(rng, 2 if big else 8, big=big)
     case = {'items': items, 'auto_pong': rng.random() < 0.7}
     if rng.random() < 0.4:
         code = rng.choice([1000, 1001, 1002, 1003, 1007, 1008, 1009, 1010,
@@ -80,138 +37,31 @@ def make_case(family, i, rng, tier):
         while len(reason.encode('utf-8')) > 123:
             reason = reason[:-1]
         case['close'] = {'code': code, 'reason': reason}
-    # segmentation of the whole stream (handshake reply + frames)
-    mode = rng.choice(['one', 'reply_alone', 'cuts', 'cuts', 'bytes'])
-    if family == 'big' and mode == 'bytes':
-        mode = 'cuts'
-    case['seg'] = mode
-    case['ncuts'] = rng.randrange(1, 12)
-    case['cut_seed'] = rng.getrandbits(32)
-    case['gaps'] = [rng.choice([0, 0, 0, 1000, 200000, 6000000])
-                    for _ in range(4)]
+    case.update(ST.seg_fields(rng, big))
     case['epoch'] = rng.choice([0, 1.7e9])
     case['poll'] = rng.choice([5, 5, 0.5, 60])
     return case
 
 
-def _payload(it):
-    if it['kind'] == 'text':
-        return it['text'].encode('utf-8')
-    return bytes.fromhex(it['hex'])
-
-
-OPC = {'text': 1, 'binary': 2, 'ping': 9, 'pong': 10, 'close': 8}
-
-
 def build(case):
     """-> (scenario, expected events, probes, layout signature)"""
-    import random
-    stream = bytearray()
-    expected = []
-    probes = collections.Counter()
-    layout = []
-    header_spans = []
-
-    def emit(op, payload, fin=1, lenform=None):
-        n = len(payload)
-        if lenform == 16 and n >= 65536:
-            lenform = None
-        if lenform is not None and ((lenform == 16 and n < 126) or
-                                    (lenform == 64 and n < 65536)):
-            probes['nonminimal_len'] += 1
-        if n >= 65536 or lenform == 64:
-            probes['len64'] += 1
-        fr = peer.enc_frame(op, payload, fin=fin, lenform=lenform)
-        header_spans.append((len(stream), len(stream) + len(fr) - n))
-        stream.extend(fr)
-        layout.append('%d%s%d' % (op, 'F' if fin else 'f',
-                                  0 if n == 0 else (1 if n < 126 else
-                                                    (2 if n < 65536 else 3))))
-
-    for it in case['items']:
-        kind = it['kind']
-        if kind in ('ping', 'pong'):
-            data = bytes.fromhex(it['hex'])[:125]
-            emit(OPC[kind], data)
-            expected.append((kind, data))
-            continue
-        payload = _payload(it)
-        cuts = [min(max(c, 0), len(payload)) for c in it.get('cuts', [])]
-        bounds = [0] + sorted(cuts) + [len(payload)]
-        nfr = len(bounds) - 1
-        if nfr > 1:
-            probes['fragmented'] += 1
-        lenforms = it.get('lenforms') or []
-        inner = it.get('inner') or []
-        for k in range(nfr):
-            part = payload[bounds[k]:bounds[k + 1]]
-            if nfr > 1 and not part:
-                probes['empty_fragment'] += 1
-            emit(OPC[kind] if k == 0 else 0, part,
-                 fin=1 if k == nfr - 1 else 0,
-                 lenform=lenforms[k] if k < len(lenforms) else None)
-            if k < nfr - 1 and k < len(inner):
-                for c in inner[k]:
-                    data = bytes.fromhex(c['hex'])[:125]
-                    emit(OPC[c['kind']], data)
-                    expected.append((c['kind'], data))
-                    probes['ctl_between_fragments'] += 1
-        if kind == 'text':
-            expected.append(('text', payload.decode('utf-8')))
-        else:
-            expected.append(('binary', payload))
+    items = list(case['items'])
     cl = case.get('close')
     if cl:
-        emit(8, peer.enc_close_payload(cl['code'], cl['reason']))
-        expected.append(('closing', cl['code'], cl['reason']))
-        probes['final_close'] += 1
-
-    reply = S.reply_tmpl()
-    # offsets below are in the final byte stream (placeholder replaced)
-    reply_len = len(reply) - len(b'@@ACCEPT@@') + 28
-    total = reply_len + len(stream)
-    mode = case.get('seg', 'one')
-    rng = random.Random(case.get('cut_seed', 0))
-    if 'cuts' in case and case['cuts'] is not None:
-        cuts = list(case['cuts'])
-    elif mode == 'one':
-        cuts = []
-    elif mode == 'reply_alone':
-        cuts = [reply_len]
-    elif mode == 'bytes':
-        cuts = list(range(1, min(total, 600))) if total < 3000 else \
-            [reply_len]
-    else:
-        cuts = sorted(set(rng.randrange(1, total)
-                          for _ in range(case.get('ncuts', 3)))) \
-            if total > 1 else []
-        # bias: cut inside a frame header
-        if header_spans and rng.random() < 0.7:
-            a, b = rng.choice(header_spans)
-            if b - a > 1:
-                cuts.append(reply_len + rng.randrange(a + 1, b))
-        cuts = sorted(set(cuts))
-    if reply_len not in cuts and stream:
-        probes['reply_and_frames_same_read'] += 1
-    for a, b in header_spans:
-        if any(reply_len + a < c < reply_len + b for c in cuts):
-            probes['cut_inside_header'] += 1
-            break
-    step = {'op': 'reply', 'tmpl': (reply + bytes(stream)).hex(),
-            'accept': 'ok', 'cuts': cuts, 'gaps': case.get('gaps') or [0]}
-    server = [{'op': 'await_request'}, step]
+        items.append({'kind': 'close', 'code': cl['code'],
+                      'reason': cl['reason']})
+    enc = ST.encode_items(items)
     if cl:
-        server += [{'op': 'await_close', 'timeout': 5000000}, S.eof()]
+        tail = [{'op': 'await_close', 'timeout': 5000000}, S.eof()]
     else:
-        server += [S.eof(after=1000)]
-    scenario = {
-        'url': 'ws://example.test/',
-        'epoch': case.get('epoch', 0),
-        'connect': {'poll': case.get('poll', 5),
-                    'auto_pong': case.get('auto_pong', True)},
-        'conns': [{'server': server}],
-    }
-    return scenario, expected, probes, ''.join(layout) + '/%d' % len(cuts)
+        tail = [S.eof(after=1000)]
+    scenario = ST.stream_scenario(
+        case, enc, tail,
+        connect={'poll': case.get('poll', 5),
+                 'auto_pong': case.get('auto_pong', True)})
+    ncuts = len(scenario['conns'][0]['server'][1]['cuts'])
+    return scenario, enc.expected, enc.probes, \
+        ''.join(enc.layout) + '/%d' % ncuts
 
 
 def execute(case):
